@@ -772,15 +772,13 @@ def certain_progress(facts, body, zero_drains=True):
     return certain, zc
 
 
-def rule_r7(facts, col, rule_id="C09.R7"):
+def rule_r7(facts, col, rule_id="C09.R7", bodies=None):
     """a wait that is already satisfied is an `Again`: where work() returns WaitForStream(&self.W, c) on a path on which
     len(window of W) >= c is established (so the runner's wait returns at once), that path has made progress.  Progress whose
     amount may be zero does not count: consume/produce with a count not established >= 1 on that path, and the drain of as
     many elements from the block's own buffer.  Loops that contain progress are taken to run (a window established non-empty
     is iterated at least once)."""
-    for body in facts.impl_bodies(BLOCK_TRAIT, "work"):
-        if body.from_derive:
-            continue
+    for body in (bodies if bodies is not None else facts.impl_bodies(BLOCK_TRAIT, "work")):
         cands = []
         for bb, verdict, e in effects.verdict_defs(body):
             if verdict != "WaitForStream" or e is None or len(e.args) < 2:
@@ -812,6 +810,275 @@ def rule_r7(facts, col, rule_id="C09.R7"):
 
 
 
+def rule_r8(facts, col, rule_id="C09.R8"):
+    """a wrapper block does not pass an inner block's wait on under a stream of its own choosing: where work() calls another
+    block's work() and answers WaitForStream(&self.F, need) with `need` taken from the inner block's WaitForStream verdict, the
+    inner verdict may be about either side of the inner block (its input OR its output) - naming one fixed outer stream is
+    misdirected whenever it was the other side (and `need` is counted in the inner stream's samples)"""
+    n = 0
+    for body in facts.impl_bodies(BLOCK_TRAIT, "work"):
+        if body.from_derive:
+            continue
+        inner = [bb for bb, t in body.calls_to("block::Block::work")]
+        if not inner:
+            continue
+        for bb, verdict, e in effects.verdict_defs(body):
+            if verdict != "WaitForStream" or e is None or len(e.args) < 2:
+                continue
+            n += 1
+            tgt = wait_target(e)
+            key = "%s:wait(%s)<-inner" % (body.q, tgt)
+            from_inner = False
+            for x in walk(e.args[1]):
+                if x.k == "field" and x.a is not None:
+                    d = peel(x.a, through_try=False)
+                    if d is not None and d.k == "downcast" and d.variant == "WaitForStream":
+                        for y in walk(d.a):
+                            if y.k == "call" and (y.q == "block::Block::work" or y.rq == "block::Block::work" or (y.q or "").endswith("::work")) and getattr(y, "bb", None) in inner:
+                                from_inner = True
+            if from_inner and tgt is not None:
+                col.bad(rule_id, key, body.where(bb),
+                        "work() answers WaitForStream(self.%s, need) with `need` copied from the WaitForStream verdict of the block it wraps: "
+                        "that verdict may be about the inner block's OUTPUT (the private stream towards self.dst is full), in which case "
+                        "more data on self.%s changes nothing - the wait is satisfied at once, work() does nothing, and the same verdict "
+                        "comes back (or the block is retired on a closed input while it still holds its backlog)" % (tgt, tgt), {})
+            else:
+                col.ok(rule_id, key, body.where(bb), "amount not taken from an inner block's wait verdict")
+    if n == 0:
+        col.ok(rule_id, "no-wrapper-wait", "src/fft_filter.rs", "no block answers WaitForStream after calling another block's work()")
+
+
+NC_PROBES = {"pop", "peek_size", "is_empty", "len"}
+WINDOW_PROBES = {"len", "is_empty", "next", "first", "last", "get", "split_first", "split_last", "nth", "peek"}
+
+
+def _mentions_stream(x, tgt, wep):
+    """expression x looks at what the stream in self.<tgt> currently offers: the length / emptiness of its window (or the
+    first step of an iteration over it), a summary predicate of it, or a pop()/peek_size() of a packet stream.  Merely
+    having obtained the window (`read_buf()?`) is not a look at its contents."""
+    for y in walk(x):
+        if y.k != "call":
+            continue
+        if wep.get(y.q) == tgt or wep.get(y.rq) == tgt:
+            return True
+        nm = (y.q or "").split("::")[-1]
+        if nm in NC_PROBES and y.args:
+            fp = self_field_path(y.args[0])
+            if fp and ".".join(fp) == tgt:
+                return True
+        if nm in WINDOW_PROBES and y.args:
+            for z in walk(y.args[0]):
+                w = window_of(z)
+                if w and w[0] == tgt:
+                    return True
+    return False
+
+
+def _min_cannot_be_zero(body, bb, fact, lbs):
+    """fact says min(a, b, ..) == 0 while every operand is established >= 1 at bb: the branch is dead"""
+    rel = fact[0]
+    x = None
+    if rel == "IntEq" and fact[2] == 0:
+        x = fact[1]
+    elif rel == "Eq" and _is_zero(fact[2]):
+        x = fact[1]
+    elif rel == "Eq" and _is_zero(fact[1]):
+        x = fact[2]
+    if x is None:
+        return False
+    p = peel(x, through_try=False)
+    if not (p.k == "call" and (p.q in MIN_CALLS or p.rq in MIN_CALLS)):
+        return False
+    return all(_positive(body, bb, a, lbs) for a in p.args)
+
+
+def rule_r9(facts, col, rule_id="C09.R9"):
+    """a wait is supported by a look at the awaited stream: where work() answers WaitForStream(&self.W, _) on a path on which
+    nothing at all has happened (no consume/produce/pop, no state change, not even one whose amount may be zero), some branch
+    condition on that path has examined what W offers (its window's len()/is_empty(), a pop()/peek_size() result, a helper
+    summarising those).  A wait answered without looking is satisfied whenever W happens to hold the amount - the runner
+    calls work() again in the same state and gets the same answer."""
+    wep = window_empty_predicates(facts)
+    for body in facts.impl_bodies(BLOCK_TRAIT, "work"):
+        cands = []
+        for bb, verdict, e in effects.verdict_defs(body):
+            if verdict == "WaitForStream" and e is not None and len(e.args) >= 2:
+                cands.append((bb, wait_target(e)))
+        if not cands:
+            continue
+        prog = set(effects.Effects(facts, body).progress)
+        with restricted_paths(body, prog):
+            r = reach_avoiding(body, 0, prog)
+            for bb, tgt in cands:
+                key = "%s:wait(%s)@%s" % (body.q, tgt, _guard_desc(body, bb))
+                if bb not in r:
+                    col.ok(rule_id, key, body.where(bb), "reached only after a possible effect")
+                    continue
+                if tgt is None:
+                    col.silent(rule_id, key, body.where(bb), "awaited stream is not a plain field of self")
+                    continue
+                fs = facts_at(body, bb)
+                if any(_mentions_stream(part, tgt, wep) for f in fs for part in f[1:] if hasattr(part, "k")):
+                    col.ok(rule_id, key, body.where(bb), "a branch condition on the effect-free path examines self.%s" % tgt)
+                    continue
+                lbs = window_lower_bounds(body, bb, facts)
+                if any(_min_cannot_be_zero(body, bb, f, lbs) for f in fs):
+                    col.ok(rule_id, key, body.where(bb), "dead branch: min(..) == 0 with every operand established >= 1")
+                    continue
+                col.bad(rule_id, key, body.where(bb),
+                        "work() answers WaitForStream(self.%s, _) on a path on which it has done nothing and no branch condition has "
+                        "looked at what self.%s offers: whenever that stream already holds the amount the wait returns at once and "
+                        "work() answers the same again, forever" % (tgt, tgt), {})
+
+
+def _window_root(e):
+    """the acquisition (read_buf()/write_buf() call) a window expression comes from, looking through slice()/iter()/refs"""
+    p = peel(e)
+    n = 0
+    while p is not None and n < 12:
+        n += 1
+        if p.k == "call" and (p.q in READ_BUF or p.q in WRITE_BUF):
+            return p
+        if p.k == "call" and p.args and (p.q or "").split("::")[-1] in ("slice", "iter", "deref", "deref_mut", "as_ref", "as_mut"):
+            p = peel(p.args[0])
+            continue
+        if p.k in ("ref", "deref", "field", "downcast", "cast"):
+            p = peel(p.a)
+            continue
+        return None
+    return None
+
+
+def _len_root(e):
+    """e is len() of a window (or of its slice): the acquisition call it belongs to"""
+    p = peel(e, through_try=False)
+    if p.k == "call" and p.args and (p.q or "").split("::")[-1] == "len":
+        return _window_root(p.args[0])
+    return None
+
+
+def _simple_factor(e):
+    p = peel(e, through_try=False)
+    return p.k == "const" or (p.k == "call" and not p.args) or p.k in ("param", "field", "deref", "cast")
+
+
+def _cancels(c, d):
+    cc, dc = _const_int(c), _const_int(d)
+    return same_expr(c, d) or (cc is not None and dc is not None and 1 <= cc <= dc)
+
+
+def _upper_bounds(e, out, depth=0, divs=(), mults=()):
+    """(u, mults) pairs with e <= u * prod(mults) by construction (unsigned arithmetic): through min, a - b, a / c, a & m,
+    a * c; a factor and a divisor that cancel on the way down are dropped (`min(n, w.len() * 2) / 2` is bounded by w.len(),
+    `min(i.len(), w.len() / ss) * ss` too)"""
+    p = peel(e, through_try=False)
+    if depth > 8:
+        out.append((p, mults))
+        return
+    if p.k == "call" and (p.q in MIN_CALLS or p.rq in MIN_CALLS):
+        for a in p.args:
+            _upper_bounds(a, out, depth + 1, divs, mults)
+        return
+    if p.k == "bin" and p.op in ("Sub", "BitAnd", "Shr"):
+        _upper_bounds(p.a, out, depth + 1, divs, mults)
+        return
+    if p.k == "bin" and p.op == "Div":
+        for m in mults:
+            if _cancels(m, p.b):
+                _upper_bounds(p.a, out, depth + 1, divs, tuple(y for y in mults if y is not m))
+                return
+        _upper_bounds(p.a, out, depth + 1, divs + (p.b,), mults)
+        return
+    if p.k == "bin" and p.op == "Mul":
+        for x, c in ((p.a, p.b), (p.b, p.a)):
+            for d in divs:
+                if _cancels(c, d):
+                    _upper_bounds(x, out, depth + 1, tuple(y for y in divs if y is not d), mults)
+                    return
+        for x, c in ((p.a, p.b), (p.b, p.a)):
+            if _simple_factor(c) and not _simple_factor(x) and _const_int(c) != 0:
+                _upper_bounds(x, out, depth + 1, divs, mults if _const_int(c) == 1 else mults + (c,))
+                return
+    out.append((p, mults))
+
+
+def _exceeds(e, root, depth=0):
+    """affirmative: e is built to be possibly LARGER than len(window root): max(.., len, ..), len + x, len * x"""
+    p = peel(e, through_try=False)
+    if depth > 6:
+        return None
+    if p.k == "call" and (p.q in MAX_CALLS or p.rq in MAX_CALLS):
+        if any(same_expr(_len_root(a), root) for a in p.args if _len_root(a) is not None):
+            return "max(..) with the window's own length as one operand"
+    if p.k == "bin" and p.op in ("Add", "Mul"):
+        for x, y in ((p.a, p.b), (p.b, p.a)):
+            lr = _len_root(x)
+            cy = _const_int(y)
+            if lr is not None and same_expr(lr, root) and not (cy is not None and ((p.op == "Add" and cy == 0) or (p.op == "Mul" and cy <= 1))):
+                return "the window's own length %s something" % ("plus" if p.op == "Add" else "times")
+    return None
+
+
+def rule_r10(facts, col, rule_id="C09.R10"):
+    """a work call consumes no more than its read window offered and commits no more than its write window offered: the
+    count of every consume()/produce() is bounded by the length of THAT window - by construction (min(.., w.len(), ..),
+    w.len() - k, w.len() / c, ..) or by a guard on the path.  Reported only on affirmative evidence: the count is clamped to
+    the length of a different window but not to this one's, or is built to exceed it (max(..), len + x, len * x); counts the
+    analysis cannot relate to any window (loop counters, lengths of the block's own buffers) are listed as not decided."""
+    for body0 in facts.impl_bodies(BLOCK_TRAIT, "work"):
+        if body0.from_derive:
+            continue
+        body = effects.work_view(facts, body0, methods=True)
+        k = 0
+        for bb, t in body.calls():
+            qs = Body.callee_qs(t)
+            if not (effects.CONSUME in qs or effects.PRODUCE in qs) or len(t["args"]) < 2:
+                continue
+            kind = "consume" if effects.CONSUME in qs else "produce"
+            key = "%s:%s#%d" % (body0.q, kind, k)
+            k += 1
+            root = _window_root(body.operand_expr(t["args"][0]))
+            cnt = body.operand_expr(t["args"][1])
+            if root is None:
+                col.silent(rule_id, key, body.where(bb), "window origin not visible")
+                continue
+            if _const_int(cnt) == 0:
+                col.ok(rule_id, key, body.where(bb), "count 0")
+                continue
+            ubs = []
+            _upper_bounds(cnt, ubs)
+            lens = [(u, m, _len_root(u)) for u, m in ubs]
+            if any(r is not None and same_expr(r, root) and not m for u, m, r in lens):
+                col.ok(rule_id, key, body.where(bb), "count bounded by this window's len() by construction")
+                continue
+            lnq = "circular_buffer::BufferReader::len" if kind == "consume" else "circular_buffer::BufferWriter::len"
+            mine = E("call", q=lnq, args=[E("ref", a=peel(body.operand_expr(t["args"][0])))])
+            try:
+                guarded = known_ge(body, bb, mine, cnt) or any(known_ge(body, bb, mine, u) for u, m in ubs if not m)
+            except Exception:
+                guarded = False
+            if guarded:
+                col.ok(rule_id, key, body.where(bb), "count bounded by this window's len() by a guard on the path")
+                continue
+            why = None
+            for u, m in ubs:
+                why = why or _exceeds(u, root)
+            if why is None and lens and all(r is not None for u, m, r in lens):
+                own = [1 for u, m, r in lens if same_expr(r, root)]
+                others = sorted({(window_of(r) or ("?",))[0] for u, m, r in lens if not same_expr(r, root)})
+                if own:
+                    why = "its only bound by this window is the window's length times a factor (nothing divides it back)"
+                else:
+                    why = "clamped only to the length of another window (%s)" % ", ".join(others)
+            if why:
+                col.bad(rule_id, key, body.where(bb),
+                        "%s() is called with a count that is not bounded by the length of the window it is called on: %s - "
+                        "the stream refuses the call (panic) as soon as the other quantity is the larger one, which depends only on how "
+                        "much data / space happened to be there" % (kind, why), {})
+            else:
+                col.silent(rule_id, key, body.where(bb), "count not related to any window by construction (%s)" % show(peel(cnt, through_try=False))[:60])
+
+
 # a body that raises an alarm as compiled is judged again on its work view (effects.view_fallback)
 rule_r2 = effects.view_fallback(rule_r2)
 rule_r3 = effects.view_fallback(rule_r3)
@@ -819,6 +1086,7 @@ rule_r4 = effects.view_fallback(rule_r4)
 rule_r5 = effects.view_fallback(rule_r5)
 rule_r6 = effects.view_fallback(rule_r6)
 rule_r7 = effects.view_fallback(rule_r7)
+rule_r9 = effects.view_fallback(rule_r9)
 
 def run(ctx):
     facts = ctx.facts("default")
@@ -830,8 +1098,14 @@ def run(ctx):
     rule_r4(facts, ctx)
     rule_r6(facts, ctx)
     ctx.floor("C09.R6", 25, "WaitForStream-on-output verdicts of blocks that consume")
+    rule_r8(facts, ctx)
+    ctx.floor("C09.R8", 1, "wrapper blocks (FftFilterFloat) - or the statement that none answers WaitForStream")
     rule_r7(facts, ctx)
     ctx.floor("C09.R7", 40, "WaitForStream verdicts with a constant amount in hand-written work() bodies")
+    rule_r9(facts, ctx)
+    ctx.floor("C09.R9", 40, "WaitForStream verdicts of hand-written work() bodies (effect-free paths need a look at the awaited stream)")
+    rule_r10(facts, ctx)
+    ctx.floor("C09.R10", 30, "consume()/produce() sites of hand-written work() bodies whose count is bounded by their own window")
     rule_r5(facts, ctx)
     ctx.floor("C09.R5", 60, "WaitForStream verdicts with a visible amount")
     ctx.floor("C09.R4", 30, "WaitForStream sites whose controlling test is a plain short-window test on the awaited stream")
